@@ -169,3 +169,157 @@ def contains_is_range():
     prove("contains-iff-depth-in-range", iff(ice.contains(p), And(lo <= p[2], p[2] <= hi)))
     ice2 = new("pyrex.ice_model.AntarcticIce", valid_range=(hi, lo))
     prove("range-is-sorted", And(eq(ice2.valid_range[0], lo), eq(ice2.valid_range[1], hi)))
+
+
+# ---------------------------------------------------------------------------
+# attenuation length: positive, documented shapes, entry == scalar evaluation
+# ---------------------------------------------------------------------------
+
+def _atten_models():
+    return ["pyrex.ice_model.AntarcticIce", "pyrex.ice_model.GreenlandIce", "pyrex.ice_model.ArasimIce"]
+
+
+def _atten_shapes(cls):
+    ice = new(cls)
+    z = real("z")
+    f = real("f")
+    assume(And(f > 0, z <= 0, z >= -3000))
+    s = ice.attenuation_length(z, f)
+    prove("scalar-positive", s > 0)
+    # row: scalar depth, array of frequencies
+    fs = symarr("fs")
+    j = fresh_index("j", len(fs))
+    assume(fs[j] > 0)
+    row = ice.attenuation_length(z, fs)
+    prove("row-length", len(row) == len(fs))
+    prove("row-entry-equals-scalar", eq(row[j], ice.attenuation_length(z, fs[j])))
+    # column: array of depths, scalar frequency
+    zs = symarr("zs")
+    i = fresh_index("i", len(zs))
+    col = ice.attenuation_length(zs, f)
+    prove("column-length", len(col) == len(zs))
+    prove("column-entry-equals-scalar", eq(col[i], ice.attenuation_length(zs[i], f)))
+    # matrix
+    mat = ice.attenuation_length(zs, fs)
+    prove("matrix-shape", And(mat.shape[0] == len(zs), mat.shape[1] == len(fs)))
+    prove("matrix-entry-equals-scalar", eq(mat[i, j], ice.attenuation_length(zs[i], fs[j])))
+
+
+@harness(clause="attenuation-shapes")
+def atten_antarctic():
+    _atten_shapes("pyrex.ice_model.AntarcticIce")
+
+
+@harness(clause="attenuation-shapes")
+def atten_greenland():
+    _atten_shapes("pyrex.ice_model.GreenlandIce")
+
+
+@harness(clause="attenuation-shapes")
+def atten_arasim():
+    _atten_shapes("pyrex.ice_model.ArasimIce")
+
+
+@harness(clause="attenuation-shapes")
+def atten_uniform():
+    ice = new("pyrex.ice_model.UniformIce", 1.5)
+    z = real("z")
+    f = real("f")
+    assume(f > 0)
+    prove("scalar-positive", ice.attenuation_length(z, f) > 0)
+    fs = symarr("fs")
+    j = fresh_index("j", len(fs))
+    assume(fs[j] > 0)
+    row = ice.attenuation_length(z, fs)
+    prove("row-entry-equals-scalar", eq(row[j], ice.attenuation_length(z, fs[j])))
+
+
+# ---------------------------------------------------------------------------
+# LayeredIce dispatches every depth to the layer containing it
+#   bounded parameter: number of layers in {1, 2, 3} (stated in the evidence)
+# ---------------------------------------------------------------------------
+
+def _layered(n_layers, order):
+    """contiguous uniform layers with symbolic boundaries b0 > b1 > ... and indices n_i,
+    handed to the constructor in the permutation `order`"""
+    bs = [real("b%d" % i) for i in range(n_layers + 1)]
+    ns = [real("n%d" % i) for i in range(n_layers)]
+    for i in range(n_layers):
+        assume(bs[i] > bs[i + 1])
+        assume(ns[i] >= 1)
+    layers = [new("pyrex.ice_model.UniformIce", ns[i], valid_range=(bs[i + 1], bs[i])) for i in range(n_layers)]
+    ice = new("pyrex.custom.layered_ice.ice_model.LayeredIce", [layers[k] for k in order])
+    return ice, layers, bs, ns
+
+
+def _layered_checks(n_layers, order):
+    ice, layers, bs, ns = _layered(n_layers, order)
+    prove("layers-sorted-top-down", And(*[same_object(ice.layers[i], layers[i]) for i in range(n_layers)]))
+    prove("boundaries", eq(ice.boundaries, bs))
+    z = real("z")
+    for i in range(n_layers):
+        inside = And(bs[i + 1] < z, z <= bs[i])
+        if i == n_layers - 1:
+            inside = And(bs[i + 1] <= z, z <= bs[i])
+        if inside_feasible(inside):
+            pass
+    # dispatch: the returned layer contains the depth (half-open rule, bottom edge inclusive)
+    if And(bs[n_layers] <= z, z <= bs[0]):
+        lay = ice.layer_at_depth(z)
+        lo, hi = lay.valid_range
+        prove("layer-contains-depth", And(lo <= z, z <= hi, Or(lo < z, z == bs[n_layers])))
+        prove("index-is-layer-index", eq(ice.index(z), lay.index(z)))
+        for i in range(n_layers):
+            prove("which-layer-%d" % i, implies(And(bs[i + 1] < z, z <= bs[i]), same_object(lay, layers[i])))
+        p = vec("p")
+        prove("contains", implies(eq(p[2], z), ice.contains(p)))
+    else:
+        prove("outside-raises", raises("ValueError", ice.layer_at_depth, z))
+        n = ice.index(z)
+        prove("above", implies(z > bs[0], eq(n, 1)))
+        prove("below", implies(z < bs[n_layers], eq(n, ns[n_layers - 1])))
+        p = vec("p")
+        prove("not-contains", implies(eq(p[2], z), Not(ice.contains(p))))
+
+
+def inside_feasible(c):
+    return True
+
+
+@harness(clause="layered-dispatch", label="B")
+def layered_1():
+    _layered_checks(1, [0])
+
+
+@harness(clause="layered-dispatch", label="B")
+def layered_2():
+    _layered_checks(2, [1, 0])
+
+
+@harness(clause="layered-dispatch", label="B")
+def layered_3():
+    _layered_checks(3, [2, 0, 1])
+
+
+@harness(clause="layered-dispatch", label="B")
+def layered_array():
+    ice, layers, bs, ns = _layered(2, [0, 1])
+    z0 = real("z0")
+    z1 = real("z1")
+    assume(And(bs[2] <= z0, z0 <= bs[0], bs[2] <= z1, z1 <= bs[0]))
+    arr = ice.index([z0, z1])
+    prove("array-entry-0", eq(arr[0], ice.index(z0)))
+    prove("array-entry-1", eq(arr[1], ice.index(z1)))
+    ls = ice.layer_at_depth([z0, z1])
+    prove("layers-entry", And(same_object(ls[0], ice.layer_at_depth(z0)), same_object(ls[1], ice.layer_at_depth(z1))))
+
+
+@harness(clause="layered-dispatch", label="B")
+def layered_gap_detected():
+    """layers that do not connect are reported by `boundaries`"""
+    a = new("pyrex.ice_model.UniformIce", 1.5, valid_range=(-100, 0))
+    g = real("gap_top")
+    assume(g < -100)
+    b = new("pyrex.ice_model.UniformIce", 1.7, valid_range=(-300, g))
+    ice = new("pyrex.custom.layered_ice.ice_model.LayeredIce", [a, b])
+    prove("gap-raises", raises("ValueError", lambda: ice.boundaries))
